@@ -9,7 +9,7 @@ from pyvc import heap as H, models, ops, source
 from pyvc.bounded import Bounded
 from pyvc.contract import Contract, loop, register
 from pyvc.engine import Frame, LoopSpec, SymRaise
-from pyvc.values import SArr, SExc, SInf, SNative, SObj, SOpaque, SSeq, Undecided, const_of, to_real, to_z3
+from pyvc.values import SArr, SClassRef, SExc, SInf, SNative, SObj, SOpaque, SSeq, Undecided, const_of, to_real, to_z3
 
 from . import collections as co
 from .emulsions import SMetricGrid, sym_emulsion
@@ -824,3 +824,142 @@ def sp_cdist2(engine, run, a, k):
         run.ghost["cdist"] = dict(XA=XA, XB=XB, metric=k.get("metric", a[2] if len(a) > 2 else "euclidean"))
         return H.SMat(XA.length, XB.length, lambda x, y: D0F(to_z3(x), to_z3(y)), "dists")
     return _prev_cdist(engine, run, a, k)
+
+
+# =====================================================================================================================
+# DropletTrackList.from_emulsion_time_course: method dispatch and the frame loop
+KEY_FL = f"{TR}:DropletTrackList.from_emulsion_time_course"
+TIMEF = z3.Function("time_of_frame", I, Rl)
+FRAMEF = z3.Function("emulsion_of_frame", I, I)
+ENDF = z3.Function("end_time_of_track", I, Rl)
+
+
+def _mk_matcher_call(key, name):
+    class M(Contract):
+        variant = "frame-loop"
+        call_site = True
+
+        def cases(self):
+            return []
+
+        def apply(self, engine, run, fi, args, kwargs):
+            g = run.ghost.get("fl")
+            if g is None:
+                return NotImplemented
+            run.trust(f"contract:{key} (verified separately): places every droplet of the frame exactly once (extends alive tracks / starts new ones)")
+            g["match_calls"].append((name, list(args), dict(kwargs)))
+            return None
+    M.key = key
+    M.__name__ = "MatcherCall_" + name
+    return register(M)
+
+
+_mk_matcher_call(KEY_MO, "overlap")
+_mk_matcher_call(KEY_MD, "distance")
+
+
+class FrameLoop(LoopSpec):
+    force = True
+
+    def havoc(self, run, env):
+        pass
+
+    def invariant(self, run, env, i, seq):
+        g = run.ghost["fl"]
+        g["phase"] = g.get("phase", 0) + 1
+        if g["phase"] == 1:
+            yield ("before the first frame no frame has been seen (t_last is None)", z3.BoolVal(env["t_last"] is None))
+        elif g["phase"] == 2:
+            # assume phase: t_last is None in the first step, the previous frame's time afterwards
+            if run.branch(i == 0):
+                env["t_last"] = None
+            else:
+                env["t_last"] = TIMEF(i - 1)
+            g["t_last_pre"] = env["t_last"]
+        else:
+            tl = env["t_last"]
+            yield ("after a frame, t_last is that frame's time - for EVERY frame, also one without droplets (so that tracks only stay alive for one frame)",
+                   tl == TIMEF(i - 1) if z3.is_expr(tl) else z3.BoolVal(False))
+
+    def before_body(self, run, env, i, seq):
+        run.ghost["fl"]["match_calls"].clear()
+
+    def after_body(self, run, env, i, seq):
+        g = run.ghost["fl"]
+        mc = g["match_calls"]
+        nonempty = z3.Function("droplets_in_frame", I, I)(i) > 0
+        run.oblige("a frame with droplets is matched exactly once (one without at most once), with the matcher of the requested method",
+                   z3.And(z3.BoolVal(len(mc) <= 1 and all(c[0] == g["method"] for c in mc)), z3.Implies(nonempty, z3.BoolVal(len(mc) == 1))),
+                   kind="ensures", assume_after=False)
+        g["phase"] = 2
+        if len(mc) != 1:
+            return
+        name, args, kw = mc[0]
+        em = args[0] if args else kw.get("emulsion")
+        alive = args[1] if len(args) > 1 else kw.get("tracks_alive")
+        t = kw.get("time", args[2] if len(args) > 2 else None)
+        run.oblige("the frame's own emulsion and time are handed to the matcher",
+                   z3.And(z3.BoolVal(getattr(em, "term", None) is not None), em.term == FRAMEF(i), t == TIMEF(i)) if getattr(em, "term", None) is not None and z3.is_expr(t)
+                   else z3.BoolVal(False), kind="ensures", assume_after=False)
+        from .parallel import SFilterMap
+        k = z3.Int("sk_trk")
+        pre = g["t_last_pre"]
+        if isinstance(alive, SFilterMap) and alive.src is g["tracks_seq"]:
+            v = alive.val(k)
+            want = z3.BoolVal(False) if pre is None else (ENDF(k) == pre)
+            run.oblige("the alive tracks are exactly the tracks that end at the previous frame's time (none before the first frame), in order",
+                       z3.And(z3.BoolVal(getattr(v, "index", None) is not None), to_z3(alive.keep(k)) == want), kind="ensures", assume_after=False)
+        else:
+            run.oblige("the alive tracks are selected from all tracks built so far", z3.BoolVal(False), kind="ensures", assume_after=False)
+
+
+LOOPS_T[(KEY_FL, 0)] = FrameLoop()
+
+
+@register
+class FromTimeCourse(Contract):
+    key = KEY_FL
+    modular = False
+
+    def cases(self):
+        return [dict(method="overlap"), dict(method="distance"), dict(method="distance", max_dist=True), dict(method="bogus")]
+
+    def setup(self, run, case):
+        n = run.input_int("n_frames")
+        run.assume(n >= 0)
+        nt = run.input_int("n_tracks")
+        run.assume(nt >= 0)
+
+        def mk_track(k):
+            k = to_z3(k)
+            t = Sym(f"track[{k}]", attrs={"end": ENDF(k)})
+            t.index = k
+            return t
+        tracks_seq = SSeq(nt, mk_track, "tracks", "list")
+        tracks = Sym("tracks", iterate=lambda run2: tracks_seq, methods={"append": lambda run2, a, k: None})
+        LENF = z3.Function("droplets_in_frame", I, I)
+        run.assume(z3.ForAll([z3.Int("lf")], LENF(z3.Int("lf")) >= 0))
+        frames = SSeq(n, lambda i: (TIMEF(to_z3(i)), Sym(f"emulsion[{i}]", term=FRAMEF(to_z3(i)), length=LENF(to_z3(i)), truth=LENF(to_z3(i)) > 0)), "items", "iter")
+        tc = Sym("time_course", methods={"items": lambda run2, a, k: frames}, length=n)
+        g = dict(match_calls=[], method=case["method"], tracks_seq=tracks_seq, tracks=tracks)
+        run.ghost["fl"] = g
+        models.CONSTRUCTORS["DropletTrackList"] = lambda eng, run2, cls, args, kw: tracks
+        self.ctx = (run, g, tracks)
+        kw = {}
+        if case.get("max_dist"):
+            kw["max_dist"] = run.input_real("max_dist")
+        return dict(cls=SClassRef(source.get_class(TR, "DropletTrackList")), time_course=tc, method=case["method"], grid=None, progress=False, kw=kw)
+
+    def call(self, engine, run, fi, a, case):
+        return engine.call_function(run, fi, [a["cls"], a["time_course"]], {"method": a["method"], "grid": a["grid"], "progress": a["progress"], **a["kw"]})
+
+    def raises(self, a, exc, case):
+        if case["method"] == "bogus":
+            return [(f"an unknown tracking method raises ValueError (raised {exc.cls_name})", exc.cls_name == "ValueError")]
+        return [(f"a valid request raises nothing (raised {exc.cls_name})", False)]
+
+    def post(self, a, ret, case):
+        run, g, tracks = self.ctx
+        if case["method"] == "bogus":
+            return [("an unknown tracking method must raise", False)]
+        return [("the track list that was filled is returned", ret is tracks)]
